@@ -244,6 +244,7 @@ func init() {
 			{Scenario: "mux.close", Params: vx.P("data", "600", "rbuf", "100"), Bound: b(1, 2), Weight: 9},
 			{Scenario: "mux.close", Params: vx.P("data", "300", "conns", "3", "delay", "1"), Bound: b(2, 3), Weight: 8},
 			{Scenario: "mux.close", Params: vx.P("data", "300", "conns", "1"), Bound: b(2, 3), Weight: 4},
+			{Scenario: "mux.close", Params: vx.P("data", "300", "conns", "2", "pool", "recycle", "delay", "1"), Bound: b(2, 3), Weight: 5},
 			{Scenario: "mux.close", Params: vx.P("data", "5", "conns", "1", "crosscheck", "1"), Bound: 1, Weight: 4},
 			{Scenario: "mux.close", Params: vx.P("data", "5", "sdata", "5", "mode", "simul", "delay", "1"), Bound: b(2, 3), Weight: 9},
 			{Scenario: "mux.close", Params: vx.P("data", "5", "sdata", "5", "mode", "simul", "conns", "1"), Bound: b(1, 2), Weight: 9},
@@ -255,6 +256,9 @@ func init() {
 			{Scenario: "mux.close", Params: vx.P("data", "300", "conns", "2", "lateaccept", "1", "delay", "1"), Bound: b(2, 3), Weight: 6},
 			{Scenario: "e2e.route", Params: vx.P("numconn", "0", "apps", "1", "sizes", "5", "forget", "1"), Bound: b(2, 2), Weight: 9},
 			{Scenario: "e2e.route", Params: vx.P("numconn", "2", "apps", "2", "sizes", "5,3", "forget", "1"), Bound: b(1, 2), Weight: 9},
+			{Scenario: "mux.wclose", Params: vx.P("writers", "2", "len", "5", "conns", "1"), Bound: b(2, 3), Weight: 8},
+			{Scenario: "mux.wclose", Params: vx.P("writers", "2", "len", "5", "conns", "2", "delay", "1"), Bound: b(2, 3), Weight: 6},
+			{Scenario: "mux.wclose", Params: vx.P("writers", "1", "len", "600", "conns", "2"), Bound: b(1, 2), Weight: 8},
 			{Scenario: "mux.close", Params: vx.P("data", "300", "mode", "srvinit"), Bound: b(2, 3), Weight: 6},
 			{Scenario: "mux.close", Params: vx.P("data", "0", "mode", "srvinit", "conns", "3", "delay", "1"), Bound: b(2, 3), Weight: 6},
 		}
